@@ -286,6 +286,34 @@ def engine_b(c, t, rng, f):
                     judge(c, cfg, method, rel, origin, shape, r.headers, "binary-cold-start:" + source, {"config": cfg, "source": source, "origin": origin, "origin_relation": rel, "method": method, "cold_start": True})
             finally:
                 cold.cleanup()
+        # the grants do not depend on who connects: the same policy on a dual-stack listener reached over IPv4 (the peer
+        # address is then ::ffff:127.0.0.1, which the standard library does not call a loopback address)
+        import socket as _so
+        try:
+            _t = _so.socket(_so.AF_INET6); _t.bind(("::", 0)); _t.close(); dual = True
+        except OSError:
+            dual = False
+        for cfg_ds, env_ds, args_ds in ([(cfg, env, args), (dict(cfg, switch="true"), env_of(dict(cfg, switch="true")), [])] if dual and i < 2 else []):
+            ds = server.Server(t.root, threads=2, env=env_ds, args=args_ds, ip="::", connect_ip="127.0.0.1")
+            if cfg_ds is not cfg and os.path.exists(cfgfile):
+                pass   # (a config file written for the 'file' source stays in force for this start as well: the model below uses cfg_ds only when it is the source)
+            try:
+                if ds.started and not (cfg_ds is not cfg and source == "file"):
+                    for rel, origin in [("configured", cfg["origins"][0]), ("unrelated", "https://evil.example"), ("absent", None)]:
+                        for shape in ("get", "preflight"):
+                            method = "GET" if shape == "get" else "OPTIONS"
+                            hs = [("Host", "localhost")] + ([("Origin", origin)] if origin is not None else []) + ([("Access-Control-Request-Method", "DELETE"), ("Access-Control-Request-Headers", "X-Other")] if shape == "preflight" else [])
+                            raw = ("%s %s HTTP/1.1\r\n" % (method, f)).encode() + "".join("%s: %s\r\n" % kv for kv in hs).encode("utf-8") + b"\r\n"
+                            data, end = ds.request(raw)
+                            c.ev()
+                            r = httpstrict.parse(data, head_request=method == "OPTIONS")
+                            if r.status:
+                                c.cls("on" if cfg_ds is not cfg else "off", rel, method, shape == "preflight", "binary-dual-stack-v4-peer:" + source)
+                                judge(c, cfg_ds, method, rel, origin, shape, r.headers, "binary-dual-stack-v4-peer:" + source, {"config": cfg_ds, "source": source, "origin": origin, "origin_relation": rel, "method": method, "peer": "::ffff:127.0.0.1"})
+                else:
+                    c.count("dual_stack_listener_did_not_start (pass skipped)")
+            finally:
+                ds.cleanup()
         srv = server.Server(t.root, threads=2, env=env, args=args)
         try:
             if not srv.started:
